@@ -121,6 +121,7 @@ let do_a line =
     match words body with
     | ["c"; t; p; named; sc] -> XCreate (th t, z_of_string p, bool_of named, parse_script sc, os)
     | ["pt"; p; t] -> XPushThread (z_of_string p, th t, os)
+    | ["pm"; p; t] -> XPushThread (z_of_string p, th t, os)   (* ABT_pool_push_threads with a batch of one *)
     | ["pu"; p; t] -> XPushUnit (z_of_string p, th t, os)
     | ["po"; p; k] | ["pp"; p; k] -> XPop (z_of_string p, z_of_string k)
     | ["sa"; t; p] -> XSetPool (th t, z_of_string p, os)
